@@ -10,7 +10,7 @@ from pbt.core import Result, pf_tol, silence, pf_outcome
 
 ID = "C16"
 LEVEL = "exploration"
-EXAMPLES = {"quick": 320, "thorough": 9000}
+EXAMPLES = {"quick": 192, "thorough": 9000}
 SHRINK_S = {"quick": 4, "thorough": 30}     # hand-reduced witnesses of the known shapes are in replays/
 DEADLINE_S = {"quick": 600, "thorough": 3000}
 RULE = ("Hypothesis draws an OPF problem: network recipe (1-3 voltage levels, <=9 buses, lines/trafos/trafo3w/impedances/switches, "
